@@ -31,9 +31,11 @@ What is extracted, and from where:
 
 from __future__ import annotations
 
+import atexit
 import inspect
 import io
 import json
+from pathlib import Path
 
 from . import core
 
@@ -183,6 +185,25 @@ def render(t: dict) -> str:
     return "\n".join(L) + "\n"
 
 
+DEFAULT_REPO = Path("/repo")
+_restore = {}
+
+
+def _write(text):
+    OUT.parent.mkdir(parents=True, exist_ok=True)
+    tmp = OUT.with_suffix(".lean.tmp")
+    tmp.write_text(text)
+    tmp.replace(OUT)
+
+
+def _restore_at_exit():
+    """A run against ANOTHER tree (VERIF_REPO = a mutant / a candidate fix) must not leave its tables in the
+    committed file: put back what was there (unless somebody else rewrote the file meanwhile)."""
+    with core.lean_lock():
+        if OUT.exists() and OUT.read_text() == _restore.get("mine"):
+            _write(_restore["old"])
+
+
 def regenerate():
     """Returns (changed, tables). Rewrites the Lean file only when its content changes."""
     t = live_tables()
@@ -191,10 +212,10 @@ def regenerate():
         old = OUT.read_text() if OUT.exists() else None
         changed = old != text
         if changed:
-            OUT.parent.mkdir(parents=True, exist_ok=True)
-            tmp = OUT.with_suffix(".lean.tmp")
-            tmp.write_text(text)
-            tmp.replace(OUT)
+            _write(text)
+            if core.REPO != DEFAULT_REPO.resolve() and old is not None and "old" not in _restore:
+                _restore.update(old=old, mine=text)
+                atexit.register(_restore_at_exit)
     return changed, t
 
 
